@@ -253,6 +253,12 @@ def run(world, rep, tier, only=None):
            "error returns after alloc_stats(+1) without alloc_stats(-1): %s" % leak[:2])
     rep.ob("C10.d", site(mk, "accounting kept on success"), not undone_ok, "no successful return passes the roll-back")
 
+    # ------------------------------------------------------------------ C10.h a new object's block is accounted before its name is linked
+    # (shared with C09.h) linking a name can split an htree leaf or grow the directory, which allocates from the same
+    # bitmap: the block already written for the new directory / symlink must be marked in use by then
+    from rules import C09
+    C09.search_mark_rule(dbg, rep, "C10.h", only_files=("lib/ext2fs/mkdir.c", "lib/ext2fs/symlink.c"), floor=2)
+
     # ------------------------------------------------------------------ C10.e removal releases everything
     kf = dbg.fn("kill_file_by_inode", "debugfs/debugfs.c")
     ifree = [c for c in calls_to(kf, "ext2fs_inode_alloc_stats2") if T.const(arg(c, 2)) == -1]
